@@ -50,7 +50,26 @@ def make_zoo():
 
         def total(self):
             return self.a + self.b
+    class CallMixin:
+        def __call__(self, x):
+            return ("mixin", x, self.a)
+
+    class Inherits(Adder):            # __call__ comes from the base class
+        pass
+
+    class Mixed(Plain, CallMixin):    # ... or from a mixin further down the MRO
+        pass
+
+    class Slotted:
+        __slots__ = ("a", "b")
+
+        def __init__(self, a, b=2):
+            self.a, self.b = a, b
     return {
+        "cls_inherits_call": (Inherits, None, None),
+        "cls_mixin_call": (Mixed, None, None),
+        "cls_slotted": (Slotted, None, None),
+        "inherits_instance": (Inherits(1, b=2), [(10,)], ["a", "b"]),
         "lambda": (lambda x: x + 1, [(3,)], []),
         "closure": (closure, [(3,)], []),
         "nested": (outer(), [(4,)], []),
